@@ -70,10 +70,13 @@ type sterm struct {
 	E  *sterm `json:"e"`
 	A  *sterm `json:"a"`
 	B  *sterm `json:"b"`
+	Bv bool   `json:"bv"`
 }
 
 var sibPath = map[string]string{"V": "F.V", "X": "F.X", "Y": "F.Y", "S": "F.S", "T": "F.T", "B": "F.B", "A0": "F.Arr[0]", "A1": "F.Arr[1]",
-	"Ma": `F.M["a"]`, "Mb": `F.M["b"]`}
+	"Ma": `F.M["a"]`, "Mb": `F.M["b"]`,
+	"GX": "F.Me().X", "GY": "F.Me().Y", "GA0": "F.GetArr()[0]", "GA1": "F.GetArr()[1]", "GMa": `F.GetM()["a"]`, "GMb": `F.GetM()["b"]`,
+	"GS": "F.Me().S", "GT": "F.Me().T", "OX": "F.Other().X", "OY": "F.Other().Y", "GGX": "F.Me().Me().X", "GGY": "F.Me().Me().Y"}
 
 func (t *sterm) grl() string {
 	switch t.K {
@@ -88,8 +91,12 @@ func (t *sterm) grl() string {
 			return "!" + t.E.grl()
 		}
 		return "!(" + strings.TrimSuffix(strings.TrimPrefix(t.E.grl(), "("), ")") + ")"
+	case "bool":
+		return fmt.Sprint(t.Bv)
 	case "sub":
 		return "F.Sub(" + t.A.grl() + ", " + t.B.grl() + ")"
+	case "gsub":
+		return "F.Me().Sub(" + t.A.grl() + ", " + t.B.grl() + ")"
 	case "bin":
 		return "(" + t.L.grl() + " " + opSym[t.Op] + " " + t.R.grl() + ")"
 	}
@@ -129,9 +136,14 @@ type SibFact struct {
 	I    map[int64]int64
 	R    map[int64]float64
 	St   map[int64]string
+	O    *SibFact
 }
 
 func (f *SibFact) Sub(a, b int64) int64    { return a - b }
+func (f *SibFact) Me() *SibFact            { return f }
+func (f *SibFact) GetArr() []int64         { return f.Arr }
+func (f *SibFact) GetM() map[string]int64  { return f.M }
+func (f *SibFact) Other() *SibFact         { return f.O }
 func (f *SibFact) PutI(k, v int64)         { f.I[k] = v }
 func (f *SibFact) PutR(k int64, v float64) { f.R[k] = v }
 func (f *SibFact) PutS(k int64, v string)  { f.St[k] = v }
@@ -139,7 +151,7 @@ func (f *SibFact) PutS(k int64, v string)  { f.St[k] = v }
 func mkSibFact(m map[string]sval) *SibFact {
 	return &SibFact{V: m["V"].V.float(), X: m["X"].V.M, Y: m["Y"].V.M, S: m["S"].S, T: m["T"].S, B: m["B"].B,
 		Arr: []int64{m["A0"].V.M, m["A1"].V.M}, M: map[string]int64{"a": m["Ma"].V.M, "b": m["Mb"].V.M},
-		I: map[int64]int64{}, R: map[int64]float64{}, St: map[int64]string{}}
+		I: map[int64]int64{}, R: map[int64]float64{}, St: map[int64]string{}, O: &SibFact{X: m["X"].V.M + 10, Y: m["Y"].V.M + 10}}
 }
 
 func sibRule(name string, key int, c, a *sterm, stores sval) string {
@@ -189,11 +201,15 @@ func cmdSibReplay(args []string) {
 			resources []string
 			has1      bool
 			has2      bool
+			reload    bool
 		}
-		cfgs := []cfg{{"S1 alone", []string{r1}, true, false}, {"S2 alone", []string{r2}, false, true},
-			{"S1 then S2", []string{r1 + "\n" + r2}, true, true}, {"S2 then S1", []string{r2 + "\n" + r1}, true, true},
-			{"two resources", []string{r1, r2}, true, true}, {"two resources reversed", []string{r2, r1}, true, true},
-			{"among other rules", []string{fillers, r2 + "\n" + r1}, true, true}}
+		cfgs := []cfg{{"S1 alone", []string{r1}, true, false, false}, {"S2 alone", []string{r2}, false, true, false},
+			{"S1 then S2", []string{r1 + "\n" + r2}, true, true, false}, {"S2 then S1", []string{r2 + "\n" + r1}, true, true, false},
+			{"two resources", []string{r1, r2}, true, true, false}, {"two resources reversed", []string{r2, r1}, true, true, false},
+			{"among other rules", []string{fillers, r2 + "\n" + r1}, true, true, false},
+			{"S1 alone, stored and loaded", []string{r1}, true, false, true},
+			{"S1 then S2, stored and loaded", []string{r1 + "\n" + r2}, true, true, true},
+			{"among other rules, stored and loaded", []string{fillers, r2, r1}, true, true, true}}
 		report := func(cf cfg, fi int, what string, want, got interface{}) {
 			bad++
 			b, _ := json.Marshal(J{"line": raw, "fam": c.Fam, "config": cf.name, "fact": fi, "what": what, "want": want, "got": got, "s1": r1, "s2": r2})
@@ -209,6 +225,18 @@ func cmdSibReplay(args []string) {
 				if err := rb.BuildRuleFromResource("s", "1", pkg.NewBytesResource([]byte(res))); err != nil {
 					report(cf, -1, "build", "accepted", err.Error())
 					continue nextCfg
+				}
+			}
+			if cf.reload {
+				var buf bytes.Buffer
+				if err := lib.StoreKnowledgeBaseToWriter(&buf, "s", "1"); err != nil {
+					report(cf, -1, "store", "stored", err.Error())
+					continue
+				}
+				lib = ast.NewKnowledgeLibrary()
+				if _, err := lib.LoadKnowledgeBaseFromReader(&buf, true); err != nil {
+					report(cf, -1, "load", "loaded", err.Error())
+					continue
 				}
 			}
 			kb, err := lib.NewKnowledgeBaseInstance("s", "1")
